@@ -571,6 +571,9 @@ func flagID(name string) string {
 	return ""
 }
 
+// codePopMark stands for a call of CodePop in a method's effect list
+const codePopMark = -1
+
 // methodOps: the opcodes an unconditional ParserData method writes (nil, false = needs special handling)
 func methodOps(methods map[string]*methodInfo, ops map[string]int, name string, depth int) ([]int, bool) {
 	m := methods[name]
@@ -579,7 +582,9 @@ func methodOps(methods map[string]*methodInfo, ops map[string]int, name string, 
 	}
 	var out []int
 	for _, o := range m.ops {
-		if strings.HasPrefix(o, "@") {
+		if o == "@CodePop" {
+			out = append(out, codePopMark)
+		} else if strings.HasPrefix(o, "@") {
 			l, ok := methodOps(methods, ops, o[1:], depth+1)
 			if !ok {
 				return nil, false
@@ -633,6 +638,8 @@ func digest(ai actInfo, ops map[string]int, methods map[string]*methodInfo) ([]s
 			} else {
 				unknown(c)
 			}
+		case "CodePush":
+			effs = append(effs, ".codePush")
 		case "LoopBegin":
 			effs = append(effs, ".loopBegin")
 		case "LoopEnd":
@@ -653,6 +660,7 @@ func digest(ai actInfo, ops map[string]int, methods map[string]*methodInfo) ([]s
 				unknown(c)
 			}
 		case "AddStoreFunction":
+			effs = append(effs, ".codePop")
 			emit("typePushFunction")
 			emit("typeStoreName")
 		case "PrepareCustomDice":
@@ -664,7 +672,11 @@ func digest(ai actInfo, ops map[string]int, methods map[string]*methodInfo) ([]s
 		default:
 			if l, ok := methodOps(methods, ops, m, 0); ok {
 				for _, k := range l {
-					effs = append(effs, fmt.Sprintf(".emit %d", k))
+					if k == codePopMark {
+						effs = append(effs, ".codePop")
+					} else {
+						effs = append(effs, fmt.Sprintf(".emit %d", k))
+					}
 				}
 			} else {
 				unknown(c)
